@@ -136,3 +136,16 @@ Proof.
   vm_compute in Ed. injection Ed as <-. vm_compute in Ec. injection Ec as <-.
   split; [vm_compute; auto|]. split; [eexists; vm_compute; reflexivity|vm_compute; reflexivity].
 Qed.
+
+(* finding non-utf8-path: with a path that is not valid UTF-8 both readers panic as soon as a
+   Files paragraph has a pattern to try (and answer "no match" when none has) *)
+Lemma nonutf8_path_witness :
+  (exists c, ly_of_doc fixed d_ws = Ok c /\ ly_find_files_nonutf8 c = Panic 13%N /\
+             ly_find_license_for_file_nonutf8 c = Panic 13%N) /\
+  ll_find_files_nonutf8 fixed d_ws = Panic 13%N /\
+  ll_find_license_for_file_nonutf8 fixed d_ws = Panic 13%N /\
+  ll_find_files_nonutf8 fixed [header; [(k_Files, []); (k_License, [88%N])]] = Ok None.
+Proof.
+  split; [eexists; split; [vm_compute; reflexivity|split; vm_compute; reflexivity]|].
+  repeat split; vm_compute; reflexivity.
+Qed.
